@@ -417,4 +417,6 @@ mod h {
     hist2!(c11_h_dmudni_mixed_then_diag, 9, 10);
     hist2!(c11_h_dpdv_then_d2pdv2, 4, 11);
     hist2!(c11_h_pressure_then_dpdni, 1, 7);
+
+    include!("c03.rs");
 }
